@@ -89,7 +89,7 @@ type registration struct {
 
 // C18 — activation functions.
 func C18(p *Prog, r *Run) {
-	r.Explanation = "Decided: (1) registry: every NodeActivationType constant is registered exactly once, scalar types with Register, module types with RegisterModule, names pairwise distinct, Register/RegisterModule fill the function map and both name maps consistently, and the miss path of all four lookups returns a non-nil error; (2) for the closure registered under each scalar constant, by abstract interpretation (interval x monotonicity x may-NaN, input domain [-1e300,1e300] split at the constants the closure tests): the result lies in the documented range, is finite and never NaN, and is monotonically non-decreasing for the sigmoid family, tanh, linear, clipped-linear and step, including left/right values at every breakpoint; a construct outside the transfer-function table makes the obligation undecided (fails); (3) module folds: multiply starts from 1 and multiplies every input, max/min fold every input with math.Max/Min starting from an identity of the whole domain (±Inf, ±MaxFloat64 or the first element). (4) closed form: every piece of every scalar closure has the algebraic normal form of its documented definition; (5) network.ActivateNode and ActivateModule touch the node(s) with the looked-up value only under err == nil of that lookup and hand the error on. The interpreter follows if/else chains, tagless switches, early returns and (re-)assigned locals of the closure flow-sensitively; a closure produced by a one-line factory with constant arguments is interpreted with the captured constants. A registered activation may be a function literal or a declared top-level function; calls of pure straight-line float helpers of the package are unfolded, the `L: for { ...; break L }` blocks of helpers inlined by the normalisation are followed, idioms (square, soft-sign) are recognised by value through locals (equal normal forms), and input pieces carry open/closed bounds so that a branch excluded by an earlier comparison contributes no piece. The lookups' error result is judged per way it is produced (direct returns and values merged into a single return)."
+	r.Explanation = "Decided: (1) registry: every NodeActivationType constant is registered exactly once, scalar types with Register, module types with RegisterModule, names pairwise distinct, Register/RegisterModule fill the function map and both name maps consistently, and the miss path of all four lookups returns a non-nil error; (2) for the closure registered under each scalar constant, by abstract interpretation (interval x monotonicity x may-NaN, input domain [-1e300,1e300] split at the constants the closure tests): the result lies in the documented range, is finite and never NaN, and is monotonically non-decreasing for the sigmoid family, tanh, linear, clipped-linear and step, including left/right values at every breakpoint; a construct outside the transfer-function table makes the obligation undecided (fails); (3) module folds: multiply starts from 1 and multiplies every input, max/min fold every input with math.Max/Min starting from an identity of the whole domain (±Inf, ±MaxFloat64 or the first element). (4) closed form: every piece of every scalar closure has the algebraic normal form of its documented definition; (5) network.ActivateNode and ActivateModule touch the node(s) with the looked-up value only under err == nil of that lookup and hand the error on. The interpreter follows if/else chains, tagless switches, early returns and (re-)assigned locals of the closure flow-sensitively; a closure produced by a one-line factory with constant arguments is interpreted with the captured constants. A registered activation may be a function literal or a declared top-level function; calls of pure straight-line float helpers of the package are unfolded, the `L: for { ...; break L }` blocks of helpers inlined by the normalisation are followed, idioms (square, soft-sign) are recognised by value through locals (equal normal forms), and input pieces carry open/closed bounds so that a branch excluded by an earlier comparison contributes no piece. The lookups' error result is judged per way it is produced (direct returns and values merged into a single return). A registration is a Register/RegisterModule call with constant arguments, or one element of a local table: an array or slice literal of structs that is written only by the literal (constant indices, outside loops) and otherwise only read inside the function, iterated completely (counter from 0 in steps of 1 up to the table's length, no other exit, not nested, on every path to the return) by a loop whose body makes the call exactly once per iteration with fields of the element at the counter, read directly or through a once-assigned local copy; such a loop counts as one registration per element with the values the literal stores."
 	factory := p.Func(PkgM, "NewNodeActivatorsFactory")
 	regF := p.Func(PkgM, "NodeActivatorsFactory.Register")
 	regM := p.Func(PkgM, "NodeActivatorsFactory.RegisterModule")
@@ -100,21 +100,42 @@ func C18(p *Prog, r *Run) {
 		byVal[c.Val().ExactString()] = c.Name()
 	}
 	var regs []registration
+	// one registration per call performed: a call with constant arguments is one; a call made in a complete loop over
+	// a local table of literals is one per element of the table (robust_c18.go tableCall)
+	tables := newC18Tables(factory)
+	mk := func(tv, fv, nv ssa.Value, module bool, pos string) registration {
+		reg := registration{module: module, pos: pos}
+		if k, ok := tv.(*ssa.Const); ok && k.Value != nil {
+			reg.constVal = k.Value.ExactString()
+			reg.constName = byVal[reg.constVal]
+		}
+		// function value: load of a package-level variable holding a closure (robust_c18.go)
+		reg.fn, reg.bind, reg.why = resolveActivation(p, fv, module)
+		if k, ok := nv.(*ssa.Const); ok && k.Value != nil && k.Value.Kind() == constant.String {
+			reg.name = constant.StringVal(k.Value)
+		}
+		return reg
+	}
 	collect := func(target *ssa.Function, module bool) {
 		for _, c := range CallsTo(factory, target) {
 			r.CallSites++
 			args := c.Common().Args
-			reg := registration{module: module, pos: p.Pos(c.Pos())}
-			if k, ok := args[1].(*ssa.Const); ok && k.Value != nil {
-				reg.constVal = k.Value.ExactString()
-				reg.constName = byVal[reg.constVal]
+			if _, direct := args[1].(*ssa.Const); !direct {
+				rows, at, why := tables.tableCall(factory, c, args[1:4])
+				if why != "" {
+					regs = append(regs, registration{module: module, pos: p.Pos(c.Pos()), why: why})
+					continue
+				}
+				for j, row := range rows {
+					pos := p.Pos(c.Pos())
+					if at[j].IsValid() {
+						pos = p.Pos(at[j])
+					}
+					regs = append(regs, mk(row[0], row[1], row[2], module, pos))
+				}
+				continue
 			}
-			// function value: load of a package-level variable holding a closure (robust_c18.go)
-			reg.fn, reg.bind, reg.why = resolveActivation(p, args[2], module)
-			if k, ok := args[3].(*ssa.Const); ok && k.Value != nil && k.Value.Kind() == constant.String {
-				reg.name = constant.StringVal(k.Value)
-			}
-			regs = append(regs, reg)
+			regs = append(regs, mk(args[1], args[2], args[3], module, p.Pos(c.Pos())))
 		}
 	}
 	collect(regF, false)
